@@ -218,9 +218,14 @@ int TempResultToFloat(TempResult* pResult) {
 
 int as_tempres_append_dynstr(as_dynstr_t* p_dest, TempResult const* pResult) {
     switch (pResult->Typ) {
-    case TempInt:
-        as_sdprcatf(p_dest, "%" PRId64, pResult->Contents.Int);
+    case TempInt: {
+        /* this text is parsed again: the listing options -SPLITBYTE/-h must not shape it */
+        char Str[32];
+
+        sprintf(Str, "%" PRId64, pResult->Contents.Int);
+        as_sdprcatf(p_dest, "%s", Str);
         break;
+    }
     case TempFloat:
         as_sdprcatf(p_dest, "%0.16e", pResult->Contents.Float);
         KillBlanks(p_dest->p_str);
